@@ -299,9 +299,11 @@ def monitor(case, o1, o2, mrecs=None):
     A.sort(key=lambda h: (h["db"], h["key"], h["lockid"], -h["isaof"], h["deadline"]))
     # root cause tag: the key's records on disk were partly dropped by the per-record expiry filter and partly replayed
     mixed = collections.defaultdict(set)
+    mixed_hold = collections.defaultdict(set)      # the same per (db, key, LockId)
     for ln in o2.get("disk", []):
         f = ln.split()
         mixed[(int(f[1]), int(f[5]))].add(disk_dropped(f, wall))
+        mixed_hold[(int(f[1]), int(f[5]), int(f[4]))].add(disk_dropped(f, wall))
     eff_model, eff_disk = collections.defaultdict(list), collections.defaultdict(list)
     for ln in o2.get("disk", []):
         f = ln.split()
@@ -310,6 +312,7 @@ def monitor(case, o1, o2, mrecs=None):
     for ln in mrecs or []:
         f = ln.split()                                   # rec db islock flag lockid key aofflag ctime start eflag etime ...
         mixed[(int(f[1]), int(f[5]))].add(disk_dropped(f, wall))
+        mixed_hold[(int(f[1]), int(f[5]), int(f[4]))].add(disk_dropped(f, wall))
         if not disk_dropped(f, wall):
             eff_model[(int(f[1]), int(f[5]))].append(tuple(f[2:14]))
     locks_on_key = collections.defaultdict(set)
@@ -335,6 +338,11 @@ def monitor(case, o1, o2, mrecs=None):
         kk = (k[0], k[1])
         if twice[k] > 1:
             return "<-same-lockid-held-twice"
+        if expr.get(k) == 65535 and not (aidx.get(k, {}).get("eflag", 0) & 0x4440):
+            return "<-expried-65535-wraps"                       # uint16(eT - CommandTime) = uint16(65536) = 0 in the record
+        counts = set(h["count"] for h in A if (h["db"], h["key"]) == kk)
+        if len(mixed_hold.get(k, ())) < 2 and len(counts) > 1:
+            return "<-shared-count-oldest-holder"                # doLock judges by the Count of the oldest holder
         if len(mixed.get(kk, ())) == 2:
             return "<-per-record-expiry-filter"
         if kk in prio_unlock_on_key:
@@ -441,8 +449,11 @@ def derive_data_fixes(ctx):
         ctx.notes.append("derive_fixes unavailable: %s" % e)
 
 
-def theorems():
-    p = os.path.join(vlib.COQ, "Properties", "C07.v")
+PROPERTY_FILES = ["C07.v", "C07_sim.v"]       # C07_sim.v: general simulation on a sub-language (Restart/Sim*.v)
+
+
+def theorems(fn="C07.v"):
+    p = os.path.join(vlib.COQ, "Properties", fn)
     if not os.path.exists(p):
         return []
     return re.findall(r"^(?:Theorem|Lemma|Corollary)\s+(\w+)", open(p).read(), flags=re.M)
@@ -541,12 +552,15 @@ def run(ctx):
     # ---------------------------------------------------------------- Coq
     broken = []
     if os.path.exists(os.path.join(vlib.COQ, "Properties", "C07.v")):
-        ok, log = ctx.coq(["Properties/C07.vo"])
-        for th in theorems():
-            present = th in ctx.assumption_report
-            ctx.obligation("theorem %s (Properties/C07.v)" % th, ok and present, "" if (ok and present) else getattr(ctx, "coq_failure", "not compiled")[:600])
-            if not (ok and present):
-                broken.append(th)
+        for fn in PROPERTY_FILES:                       # one make per file: Print Assumptions output is not interleaved
+            if not os.path.exists(os.path.join(vlib.COQ, "Properties", fn)):
+                continue
+            ok, log = ctx.coq(["Properties/" + fn[:-2] + ".vo"])
+            for th in theorems(fn):
+                present = th in ctx.assumption_report
+                ctx.obligation("theorem %s (Properties/%s)" % (th, fn), ok and present, "" if (ok and present) else getattr(ctx, "coq_failure", "not compiled")[:600])
+                if not (ok and present):
+                    broken.append(th)
     else:
         ctx.obligation("Properties/C07.v exists", False, "no property theorem file yet")
         broken.append("(no theorem file)")
